@@ -8,7 +8,10 @@ notices expected are awaited, then every socket obtains its own later notice (pe
 the node's broker), then the complete per-socket notification lists are compared; same-node unknown service -> error and no notice;
 firewall drop at destination and in transit -> no notice within the barrier; DialContext to a never-bound service and to a listener
 closed a moment ago must return within 5 s of the notice reaching the dialling socket (handshake idle timeout is 15 s); the
-close-while-sending race runs in a child process (a crash is an observation) and is judged arrival by arrival from the hook events.
+close-while-sending race runs in a child process (a crash is an observation) and is judged arrival by arrival from the hook events;
+socket churn (UnreachBroker.tla: the broker hands every notice to every subscribed socket and waits for all of them): while sockets of a node
+are opened and closed and dials run concurrently, the sockets that stay open must get a notice for every datagram, and a later send and a
+later dial must still be answered / abandoned within the bound.
 Hook traces are validated by TLC against DataPlaneTrace.tla."""
 import os
 import vlib
@@ -29,16 +32,24 @@ def run(tier, seed, replay=None):
         return res, tv
 
     def design():
-        return dplib.design_runs(dcfgs, wd)
+        rs = dplib.design_runs(dcfgs, wd)
+        if not dplib.SELFTEST:
+            # the broker / socket-feed hand-off: the code's variant holds, the stop-reading-on-cancel variant is a documented counter-example
+            rs.append(("UnreachBroker.tla", "UnreachBroker_quick.cfg", vlib.tlc_must_pass("UnreachBroker", "UnreachBroker_quick.cfg", wd, workers=2, timeout=900)))
+            bad = vlib.tlc("UnreachBroker", "UnreachBroker_seeded.cfg", wd, workers=2, timeout=900)
+            if bad.violated != "NeverWedged":
+                raise vlib.Inconclusive("UnreachBroker_seeded.cfg (reader stops on cancel) is expected to violate NeverWedged; got %s" % bad.violated)
+        return rs
 
     def wits():
-        return dplib.witnesses([("DataPlaneMC", "DataPlane_wit.cfg", ["W_NoUnknownNotice", "W_NoLocalUnknown", "W_NoNoticeDropped"])], wd)
+        return dplib.witnesses([("DataPlaneMC", "DataPlane_wit.cfg", ["W_NoUnknownNotice", "W_NoLocalUnknown", "W_NoNoticeDropped"]),
+                                ("UnreachBroker", "UnreachBroker_quick.cfg", ["W_NoCloseDuringFanout", "W_NoUnsubWhilePublishWaits"])], wd)
 
     (res, tv), rs, wit = dplib.parallel(impl, design, wits)
     dplib.apply(v, res, tv)
     c = res["counters"]
     if not v.violations:
-        for k in ("remote_unknown", "local_unknown", "drop_cases", "dials", "race_rounds", "race_delivered", "race_noticed", "racemulti_rounds", "notice_topologies"):
+        for k in ("remote_unknown", "local_unknown", "drop_cases", "dials", "race_rounds", "race_delivered", "race_noticed", "racemulti_rounds", "churn_rounds", "churn_socket_cycles", "notice_topologies"):
             if not c.get(k):
                 raise vlib.Inconclusive("never exercised: %s" % k)
         for k in ("unknown", "publish", "socket", "close"):
@@ -58,5 +69,6 @@ def run(tier, seed, replay=None):
     return v.finish("model_checking", cov, assumptions=[
         "notifications reach a socket's SubscribeUnreachable channel in the order in which the node's unreachable broker accepted them (per-socket FIFO), which is what makes the per-socket sentinel a barrier",
         "close race: a datagram that was waiting for the reader when Close() ran may be dropped without notice (the listener existed when it arrived: nothing is demanded), at most one per deliverer; with one deliverer every arrival is classified from the ordered hook events, with three deliverers (two neighbours and a local sender) the round is judged by accounting (arrivals = delivered + answered + abandoned)",
+        "socket churn: 6 goroutines x 6*rounds open/send/close cycles and 4 concurrent diallers against two steady senders; a wedged node is recognised by missing notices while the data plane has been idle for 3 s",
         "dial threshold 5 s after the notice reached the dialling socket (measured from the unr_socket hook event); handshake idle timeout is 15 s",
     ])
